@@ -2,7 +2,7 @@
 from trkgen import *
 
 ID = "C03"
-THEOREM_MODULES = ["SimVerif.Props.C03", "SimVerif.Props.C03b"]
+THEOREM_MODULES = ["SimVerif.Props.C03", "SimVerif.Props.C03b", "SimVerif.Props.C03c"]
 THEOREM_MODULE = "SimVerif.Props.C03"
 NONTRIVIAL_FLAGS = {"expired-uncollected", "expired-uncollected-in-scene", "handed-out", "gc-runs", "clear-nonempty", "skip", "idle-nonempty", "multi-scene-store"}
 RULE = ("random interleavings of predict (possibly empty), skip_epochs, wasted, idle_tracks, clear_wasted, set_auto_waste (0,1,3,100), epoch over 1..3 scenes, max_idle 0..3, shards 1..4, Sort and BatchSort (IoU / Mahalanobis); "
@@ -14,9 +14,9 @@ TRUSTED_BASE = ["Lean 4.33 kernel", "axioms: propext, Quot.sound, Classical.choi
 ASSUMPTIONS = ["history length > 0 (asserted by the constructors)", "ids/epochs below 2^64"]
 LEVEL_TEXT = ("Lean 4 theorems, for every distance table and every valid association choice, by induction over the operation sequence: live / wasted / handed / cleared id lists are pairwise disjoint and together hold every id ever issued; "
               "a track expires exactly when last_update + max_idle < epoch(scene); predict advances only its scene by one, skip by n; an expired track is never continued; an id is handed out at most once and was expired; idle = unexpired tracks of the scene not updated in its current epoch; "
-              "statistics count the live and the wasted store per shard; two histories of the simple tracker that differ only in their set_auto_waste calls are indistinguishable (C03_gc_unobservable, a simulation proof over predict / skip / wasted / idle / epoch). Differential run of the real trackers against the model with full dumps after every call.")
+              "statistics count the live and the wasted store per shard; two histories of the simple tracker that differ only in their set_auto_waste calls are indistinguishable (C03_gc_unobservable, a simulation proof over predict / skip / wasted / idle / epoch); the same one-call simulation holds for VisualSORT and the two batch trackers (Props/C03c). Differential run of the real trackers against the model with full dumps after every call.")
 LEVEL_NOTE = "Trusted: Lean kernel; model<->code tie sampled; kernel values observed, not modelled; GC-timing independence is proved for the observable projection (see theorems)."
-PARTIAL = ["C03_gc_unobservable (Props/C03b.lean) is proved for the simple SORT tracker model (`predict` with `cfg.batchIds = false`) over histories of predict / skip / wasted / idle / epoch / set_auto_waste: two histories that differ only in their set_auto_waste calls give the same records, epochs and idle lists and hand out the same wasted tracks (as multisets). Not covered by that theorem: the batch id discipline and the VisualSORT step (same collection code path; compared by the run with periodicities 0, 1, 3, 100), and histories containing clear_wasted — what clear_wasted drops does depend on whether the collection has already run (DESIGN section 7, C03 note)"]
+PARTIAL = ["GC timing unobservable: proved over whole histories (predict / skip / wasted / idle / epoch, set_auto_waste calls differing arbitrarily) for the simple SORT tracker (C03_gc_unobservable, Props/C03b) and as a one-call simulation step for the other three trackers (predictV_equiv, predictBatch_equiv, predictBatchV_equiv, Props/C03c: indistinguishable states give the same records and stay indistinguishable); the history-level corollary for those three is the same induction and is not restated. Histories containing clear_wasted are excluded on purpose: what clear_wasted drops does depend on whether the collection has already run (DESIGN section 7, C03 note)"]
 TECHNIQUE = "Lean 4 proof (invariants by induction over operations, relational step with validated choice) with differential correspondence check"
 
 
